@@ -94,7 +94,7 @@ class Network(object):
             self.sessions[side] = s
             for chan, _ in CHANNELS:
                 def cb(topic, msg, side=side, chan=chan):
-                    self.seen[side][chan].append(msg.get('arg'))
+                    self.seen[side][chan].append(_mid(msg))
                 memzmq.Subscriber(chan, url='mem://%s/%s' % (side, chan),
                                   topic=chan, cb=cb)
 
@@ -105,7 +105,36 @@ class Network(object):
         memzmq.uninstall()
 
 
+def _mid(msg):
+    '''message id: `arg` of the plain test messages, `uid` of typed ones'''
+    if not isinstance(msg, dict):
+        return None
+    return msg.get('arg') if msg.get('cmd') == 'test' else msg.get('uid')
+
+
+# typed messages of radical.pilot.messages: (class name, forward flag the
+# class gives them by default)
+TYPED = {'rpc_req'        : ('RPCRequestMessage',       True),
+         'rpc_res'        : ('RPCResultMessage',        True),
+         'component_start': ('ComponentStartedMessage', False)}
+
+
+def make_typed(mid, kind):
+    import radical.pilot.messages as m_msgs
+    cls = getattr(m_msgs, TYPED[kind][0])
+    if kind == 'rpc_req':
+        return cls(uid=mid, addr='pilot.0000', cmd='prepare_env',
+                   args=['a'], kwargs={'k': 1})
+    if kind == 'rpc_res':
+        return cls(uid=mid, val=[1, 2], out='o', err='', exc=None)
+    return cls(uid=mid, pid=4711)
+
+
 def make_msg(mid, flag, origin, side, sides):
+    if origin in TYPED:
+        # a typed message as the components publish it: flag and origin are
+        # whatever the message class provides
+        return make_typed(mid, origin)
     msg = {'cmd': 'test', 'arg': mid}
     if flag != 'absent':
         msg['fwd'] = flag
@@ -131,7 +160,10 @@ def check(nw, sent, res, case):
         res.count('messages_checked')
         counts = {s: nw.seen[s][chan].count(mid) for s in sides}
         res.count('deliveries_counted', sum(counts.values()))
-        hops = sum(1 for e in pubs if e['payload'].get('arg') == mid)
+        hops = sum(1 for e in pubs if _mid(e['payload']) == mid)
+        if origin in TYPED:
+            res.count('typed_messages_checked')
+            flag, origin = TYPED[origin][1], 'absent'
         ctx  = {'case': case, 'message': [mid, side, chan, flag, origin],
                 'counts': counts, 'publications': hops}
 
@@ -176,6 +208,9 @@ def run_cells(ctx, res):
                 sides, ['absent', False, True],
                 ['absent', 'own', 'other', 'unknown'], range(len(CHANNELS))):
             cells.append((tuple(sides), side, flag, origin, ci))
+        for side, kind, ci in itertools.product(sides, sorted(TYPED),
+                                                range(len(CHANNELS))):
+            cells.append((tuple(sides), side, 'class', kind, ci))
     mine = [c for i, c in enumerate(cells) if i % ctx.nshards == ctx.shard]
     for sides, side, flag, origin, ci in mine:
         case = {'sides': list(sides), 'msgs': [[side, CHANNELS[ci][0], flag,
@@ -251,7 +286,8 @@ def run(ctx):
             msgs.append([rng.choice(sides), rng.choice(CHANNELS)[0],
                          rng.choice(['absent', False, True, True]),
                          rng.choice(['absent', 'absent', 'own', 'other',
-                                     'unknown'])])
+                                     'unknown', 'rpc_req', 'rpc_res',
+                                     'component_start'])])
             pumps[str(j)] = rng.randint(0, 4)
         run_case(res, {'sides': sides, 'msgs': msgs, 'pumps': pumps,
                        'seed': rng.randint(0, 2 ** 30)})
